@@ -880,8 +880,11 @@ class List(list, base.Symbolic, pg_typing.CustomTyping):
         )
       if self._allow_partial == allow_partial:
         proceed_with_standard_apply = False
-      else:
+      elif allow_partial or not self.sym_missing(flatten=False):
         self._allow_partial = allow_partial
+      # Otherwise a value with missing parts is handed to a place that does not
+      # accept partial values: the standard apply below rejects it, and the
+      # flag must stay as it is (or a second attempt would skip the check).
     elif isinstance(value_spec, pg_typing.List):
       self._value_spec = value_spec
     return (proceed_with_standard_apply, self)
